@@ -15,14 +15,16 @@ Record fixture := mkfix {
   x_canvas : bytes;
   x_regress : list (bytes * bool);             (* suite, quiet *)
   x_step : option bytes;                       (* step.csv *)
-  x_logs : list (bytes * option bytes);        (* log field -> content *)
-  x_tmp : list (bytes * option bytes);         (* name below tmp-dir -> content *)
+  x_logs : list (bytes * fread);               (* log field -> what reading <builddir>/<log field> gives *)
+  x_tmp : list (bytes * fread);                (* name below tmp-dir -> what reading it gives *)
   x_comment : fread;
   x_tags : option bytes;
   x_target : option bytes;
   x_root : option (list dirent);
   x_rel : option (list relfile);
   x_prev : list (bytes * (bytes * Z));         (* previous builddir, (name below rel, st_size) *)
+  x_age : list bytes;                          (* the entries of robsddir (full paths) in the order they were created,
+                                                  oldest first: known to whoever made the directory, not to robsd-report *)
 }.
 
 Fixpoint assoc {A} (l : list (bytes * A)) (k : bytes) : option A :=
@@ -31,8 +33,9 @@ Fixpoint assoc {A} (l : list (bytes * A)) (k : bytes) : option A :=
   | (k', v) :: l' => if beq k k' then Some v else assoc l' k
   end.
 
-Definition lookup_file (l : list (bytes * option bytes)) (k : bytes) : option bytes :=
-  match assoc l k with Some (Some b) => Some b | _ => None end.
+(* a name that is not in the list does not exist *)
+Definition lookup_file (l : list (bytes * fread)) (k : bytes) : fread :=
+  match assoc l k with Some v => v | None => FAbsent end.
 
 Fixpoint lookup_prev (l : list (bytes * (bytes * Z))) (prev name : bytes) : option Z :=
   match l with
@@ -57,8 +60,9 @@ Definition rows_of (x : fixture) : option (list srow) :=
   end.
 
 (* robsd-report on the fixture *)
-Definition run_fixture (x : fixture) : N * bytes :=
-  report_main (x_mode x) (cfg_of x) (x_host x) (x_step x) (files_of x).
+Definition run_fixture_with (w : switches) (x : fixture) : N * bytes :=
+  report_main_with w (x_mode x) (cfg_of x) (x_host x) (x_step x) (files_of x).
+Definition run_fixture := run_fixture_with cur_sw.
 
 (* duration_total -s step.csv under _MODE = mode; when robsd-step cannot read the
    file the first step_eval fails and the total is 0 *)
